@@ -227,17 +227,22 @@ Fixpoint handle_records (s : tcore) (rs : list tls_record) (isserver : bool) : r
 
 (* one step of get_tls_records: a buffered packet is appended to its direction's buffer (server_packet_buffer /
    client_packet_buffer, which no record handler ever touches), framed, and the released records are handled *)
-Record rstate := { rs_server_pbuf : list packet; rs_client_pbuf : list packet; rs_core : tcore; rs_traffic : list traffic_entry }.
+Record rstate := { rs_server_pbuf : list packet; rs_client_pbuf : list packet; rs_server_next : option Z; rs_client_next : option Z;
+                   rs_core : tcore; rs_traffic : list traffic_entry }.
 
 Definition feed_packet (server_ip : bytes) (server_port : Z) (st : rstate) (p : packet) : result rstate :=
   if from_server_id server_ip server_port p then
-    do r <- extract (rs_server_pbuf st ++ [p]);
-    do x <- handle_records (rs_core st) (snd r) true;
-    Ok {| rs_server_pbuf := fst r; rs_client_pbuf := rs_client_pbuf st; rs_core := fst x; rs_traffic := rs_traffic st ++ snd x |}
+    do r <- extract (rs_server_next st) (rs_server_pbuf st ++ [p]);
+    let '(nx, buf, recs) := r in
+    do x <- handle_records (rs_core st) recs true;
+    Ok {| rs_server_pbuf := buf; rs_client_pbuf := rs_client_pbuf st; rs_server_next := nx; rs_client_next := rs_client_next st;
+          rs_core := fst x; rs_traffic := rs_traffic st ++ snd x |}
   else
-    do r <- extract (rs_client_pbuf st ++ [p]);
-    do x <- handle_records (rs_core st) (snd r) false;
-    Ok {| rs_server_pbuf := rs_server_pbuf st; rs_client_pbuf := fst r; rs_core := fst x; rs_traffic := rs_traffic st ++ snd x |}.
+    do r <- extract (rs_client_next st) (rs_client_pbuf st ++ [p]);
+    let '(nx, buf, recs) := r in
+    do x <- handle_records (rs_core st) recs false;
+    Ok {| rs_server_pbuf := rs_server_pbuf st; rs_client_pbuf := buf; rs_server_next := rs_server_next st; rs_client_next := nx;
+          rs_core := fst x; rs_traffic := rs_traffic st ++ snd x |}.
 
 Fixpoint get_tls_records (server_ip : bytes) (server_port : Z) (st : rstate) (ps : list packet) : result rstate :=
   match ps with [] => Ok st | p :: t => do st' <- feed_packet server_ip server_port st p; get_tls_records server_ip server_port st' t end.
